@@ -49,6 +49,17 @@ CLAIMED = {
          "AvroLogical!Prep (civil-date arithmetic, BigNat epoch microseconds, two's complement) and the value read with Unprep; values the schema "
          "cannot represent must raise.",
          "TLA+ spec (AvroLogical) + TLC trace validation", "3/C16"),
+ "C09": ("V: data written to union-bearing schemas (hints of both kinds, none, bad hints, tuple notation on/off); TLC compares the union indices in the "
+         "bytes with AvroValue!ChooseBranch (hint -> named branch or error; first conforming non-record branch with the float->double deferral; "
+         "record sharing most field names), the value read with return_named_type=True with NormN, and the bytes obtained by writing that value back.",
+         "TLA+ spec (AvroValue!ChooseBranch, NormN, AvroBinary!Encode) + TLC trace validation", "3/C09"),
+ "C10": ("V: conforming data and single-fault mutations at random positions; TLC evaluates AvroValue!Conforms (strict / tuple options) and requires "
+         "validate()==Conforms, ValidationError exactly when false, accepted data to encode per MatchCanon and round-trip to Norm, and a "
+         "Writer(validator=True) to leave a file (parsed by AvroFile!ParseFile) that contains exactly the other records when the datum is rejected.",
+         "TLA+ spec (AvroValue!Conforms, AvroFile!ParseFile) + TLC trace validation", "3/C10"),
+ "C20": ("V: generate_one/generate_many on generated schemas (logical, by-name, recursive) under many random.seed states; TLC requires the count, "
+         "Conforms for every value, writability through both writers and equality of what is read back with Norm where the spec defines it.",
+         "TLA+ spec (AvroValue!Conforms/Norm) + TLC trace validation", "3/C20"),
 }
 checks = []
 for p in props:
